@@ -469,7 +469,12 @@ class Message(BaseMessage):
     def _try_decode_tuple(content):
         """Decode content of a tuple.
 
+            Instances of tuple sub-classes (e.g. time.struct_time, named
+            tuples) are returned as they are.
+
         :param tuple content:
         :return:
         """
+        if type(content) is not tuple:
+            return content
         return tuple(Message._try_decode_list(content))
